@@ -11650,7 +11650,17 @@ func (p *parser) minifySwitchStmt(loc logger.Loc, s *js_ast.SSwitch, stmts []js_
 
 			// Find the case that compares equal and will be taken
 			for i, c := range s.Cases {
-				if isEqualToTest, ok := js_ast.CheckEqualityIfNoSideEffects(s.Test.Data, c.ValueOrNil.Data, js_ast.StrictEquality); ok && isEqualToTest {
+				if c.ValueOrNil.Data == nil {
+					continue
+				}
+				isEqualToTest, ok := js_ast.CheckEqualityIfNoSideEffects(s.Test.Data, c.ValueOrNil.Data, js_ast.StrictEquality)
+				if !ok {
+					// Give up if we can't tell whether or not this case is taken
+					takenIndex = -1
+					defaultIndex = -1
+					break
+				}
+				if isEqualToTest {
 					takenIndex = i
 					break
 				}
